@@ -204,9 +204,9 @@ def _child(specs, seed):
             ks = sorted(set(rng.randrange(1, K + 1) for _ in range(min(K, 4)))) if K else []
             for k in ks:
                 seam = kinds_of.get(k, "execute")
-                fam = NET_KINDS if seam.startswith("net_") else (FILE_KINDS if seam in ("open", "file_write") else CONN_KINDS)
+                fam = NET_KINDS if seam.startswith("net_") else (FILE_KINDS if seam in ("open", "file_write", "mkdir") else CONN_KINDS)
                 kind = rng.choice(fam)
-                when = rng.choice(["instead", "after"])
+                when = rng.choice(["instead", "after"]) if seam != "mkdir" else "instead"
                 fn2, kw2 = build_call(spec, sb, n)
                 b2 = snapshot.snap(kw2)
                 SIM.reset(seed=n, faults=[{"op": 0, "k": k, "kind": kind, "when": when}])
